@@ -450,6 +450,10 @@ func verifC09IDLength() {
 		}
 	}
 	kw := []string{"FIN", "REQ", "TOUCH"}[verifrt.Choice("kw", 3)]
+	// a consumer that has sent CLS still answers for the messages it holds
+	if verifrt.Choice("after-cls", 2) == 1 {
+		cl.State = stateClosing
+	}
 	params := [][]byte{[]byte(kw), id}
 	if kw == "REQ" {
 		params = append(params, []byte("0"))
@@ -483,4 +487,57 @@ func VerifC09_ShortNameRule() {
 	verifrt.Assert(protocol.IsValidChannelName(string(name)) == got, "short-channel-rule-equals-topic-rule")
 	verifrt.Reach("bare-suffix-refused", len(base) == 0 && len(name) > 0 && !got)
 	verifrt.Reach("short-ephemeral-accepted", len(base) > 0 && len(name) > 10 && got)
+}
+
+// The command loop itself (real IOLoop with its delivery pump goroutine) over a line with ANY
+// ending: "NOP" followed by up to 2 arbitrary bytes and the newline. Exactly one optional '\r'
+// before the '\n' belongs to the line ending; the command is the first space-separated token of
+// what remains. If that is NOP nothing is answered and the connection stays; anything else
+// ("NOP\r", "NOPx", ...) is an unknown command: fatal E_INVALID, connection closed.
+func VerifC09_IOLoopLineEndings() {
+	o := verifOpts()
+	n := verifShellNSQD(o)
+	verifrt.StubNative("(*github.com/nsqio/nsq/nsqd.NSQD).Notify", verifNotifyNop)
+	verifrt.Preemptions(0)
+	if verifrt.Symbolic() {
+		verifTickC = make(chan time.Time)
+		verifrt.Stub("time.NewTicker", verifNewTickerStub)
+		verifrt.Stub("(*time.Ticker).Stop", verifTickerStopStub)
+	}
+	tail := verifrt.Bytes("tail", 2)
+	for _, b := range tail {
+		verifrt.Assume(b != '\n')
+	}
+	wire := append(append([]byte("NOP"), tail...), '\n')
+	cl, conn := verifClient(n, 1, wire)
+	conn.in.err = errEOFVerif
+	p := &protocolV2{nsqd: n}
+	err := p.IOLoop(cl)
+	verifrt.Rest()
+	// reference
+	line := append([]byte("NOP"), tail...)
+	if len(line) > 0 && line[len(line)-1] == '\r' {
+		line = line[:len(line)-1]
+	}
+	first := line
+	for i, b := range line {
+		if b == ' ' {
+			first = line[:i]
+			break
+		}
+	}
+	isNop := string(first) == "NOP"
+	cl.writeLock.Lock()
+	cl.Flush()
+	cl.writeLock.Unlock()
+	if isNop {
+		verifrt.Assert(err == nil && len(conn.out.data) == 0, "nop-with-a-proper-line-ending-answers-nothing")
+		verifrt.Reach("nop-crlf", len(tail) == 1 && tail[0] == '\r')
+	} else {
+		verifrt.Assert(err != nil, "unknown-command-ends-the-connection")
+		want := []byte("E_INVALID")
+		got := conn.out.data
+		verifrt.Assert(len(got) >= 8+len(want) && got[7] == byte(frameTypeError) && bytes.Equal(got[8:8+len(want)], want), "unknown-command-is-answered-E_INVALID")
+		verifrt.Reach("double-cr-is-not-a-line-ending", len(tail) == 2 && tail[0] == '\r' && tail[1] == '\r')
+	}
 }
